@@ -253,6 +253,41 @@ func c03Pref64(c *Ctx) {
 		c.R.Check(bad == "" && nCalls >= 1, "R-C03-3", fn+":pref64-prefix-encodable", fn, c.pos(pp.Pos()), fmt.Sprintf("%d path(s) to NewPREF64; counterexample: %q", nCalls, bad),
 			"the prefix is result #0 of parseIPPrefix (IPv6, canonical) and the path established Bits() ∈ {32,40,48,56,64,96}", "a pref64 prefix that cannot be encoded (or changes meaning on the wire) is accepted")
 	}
+	// every prefix the shared helper lets through is IPv6 and not IPv4-mapped: ndp refuses to decode
+	// an IPv4-mapped prefix/route/pref64 option, so an RA carrying one does not survive the wire
+	if ipp := c.needFunc("R-C03-3", "internal/config", "parseIPPrefix"); ipp != nil {
+		nOK, bad := 0, ""
+		for _, p := range c.pathsO("R-C03-3", ipp, an.PathOpts{}) {
+			if p.Ret == nil || len(p.Results) != 2 || !exprIsNil(p.Results[1]) || exprIsZero(p.Results[0]) {
+				continue
+			}
+			res := p.Results[0]
+			is6, not4in6 := false, false
+			for _, a := range p.Atoms {
+				e := a.Cond
+				if e.Op != an.OpCall || e.Fn == nil || len(e.Args) != 1 {
+					continue
+				}
+				onRes := e.Args[0].Op == an.OpCall && e.Args[0].Fn != nil && e.Args[0].Fn.String() == "(net/netip.Prefix).Addr" && sameValue(e.Args[0].Args[0], res)
+				if !onRes {
+					continue
+				}
+				switch e.Fn.String() {
+				case "(net/netip.Addr).Is6":
+					is6 = a.Pos
+				case "(net/netip.Addr).Is4In6":
+					not4in6 = !a.Pos
+				}
+			}
+			if is6 && not4in6 {
+				nOK++
+			} else {
+				bad = fmt.Sprintf("returns %s with Is6 established=%v, Is4In6 excluded=%v", res, is6, not4in6)
+			}
+		}
+		c.R.Check(bad == "" && nOK >= 1, "R-C03-3", c.fname(ipp)+":ipv6-not-mapped", c.fname(ipp), c.pos(ipp.Pos()), fmt.Sprintf("%d accepting path(s); %s", nOK, bad),
+			"every accepted prefix has Addr().Is6() and not Addr().Is4In6()", "an IPv4-mapped prefix is accepted; the option it produces cannot be decoded")
+	}
 	// lifetime range
 	np := c.needFunc("R-C03-3", "internal/plugin", "NewPREF64")
 	if np == nil {
